@@ -2938,4 +2938,412 @@ theorem assignIds_injective (m : VMap) : IdsInjective (assignIds false m) := by
 
 
 
+
+
+/-! ### displacement rows: names and tokens -/
+
+theorem lower_showNat (n : Nat) : lower (showNat n) = showNat n := lower_showInt (Int.ofNat n)
+
+theorem rowName_lower (y : Nat) : lower (rowName y) = rowName y := by
+  unfold rowName
+  rw [lower_append, lower_showNat]
+  have : lower (lit "row") = lit "row" := by decide
+  rw [this]
+
+theorem rowName_prefix (y : Nat) : (lit "row").isPrefixOf (rowName y) = true := by
+  simp [rowName, List.isPrefixOf_iff_prefix]
+
+theorem rowName_index (y : Nat) : parseInt? ((rowName y).drop 3) = some (Int.ofNat y) := by
+  have : (rowName y).drop 3 = showNat y := by simp [rowName, lit]
+  rw [this]
+  exact parseInt_showInt (Int.ofNat y)
+
+/-- `(y, r0), (y+1, r1), …` -/
+def idxFrom (y : Nat) : List (List Str) → List (Nat × List Str)
+  | [] => []
+  | r :: rs => (y, r) :: idxFrom (y + 1) rs
+
+def TokList (r : List Str) : Prop := ∀ t ∈ r, t ≠ [] ∧ NoWs t
+
+theorem rowsOfBlock_leaves (width y : Nat) (rows : List (List Str))
+    (h : ∀ r ∈ rows, r.length = width ∧ TokList r) :
+    rowsOfBlock width (rowLeavesFrom y rows) = .ok (idxFrom y rows) := by
+  induction rows generalizing y with
+  | nil => rfl
+  | cons r rs ih =>
+    have hr := h r (by simp)
+    have hf : (KV.leaf (rowName y) (unwords r)).fname = rowName y := by
+      simp [KV.fname, KV.name, rowName_lower]
+    simp only [rowLeavesFrom, rowsOfBlock, hf, rowName_prefix, if_true, rowName_index]
+    rw [splitWs_unwords r hr.2]
+    simp only [hr.1, bne_self_eq_false, Bool.false_eq_true, if_false]
+    rw [ih (y + 1) (fun q hq => h q (by simp [hq]))]
+    rfl
+
+theorem dispRows_skip (name : String) (width : Nat) (pre rest : List KV)
+    (h : ∀ k ∈ pre, named name k = false) :
+    dispRows name width (pre ++ rest) = dispRows name width rest := by
+  induction pre with
+  | nil => rfl
+  | cons k ks ih =>
+    simp only [List.cons_append, dispRows, h k (by simp), Bool.false_eq_true, if_false]
+    exact ih (fun j hj => h j (by simp [hj]))
+
+theorem dispRows_hit (name : String) (width : Nat) (pre post kids : List KV) (rows : List (Nat × List Str))
+    (hpre : ∀ k ∈ pre, named name k = false) (hpost : ∀ k ∈ post, named name k = false)
+    (hk : rowsOfBlock width kids = .ok rows) :
+    dispRows name width (pre ++ kBlock name kids :: post) = .ok rows := by
+  rw [dispRows_skip name width pre _ hpre]
+  have hn : named name (kBlock name kids) = true := by simp [named, kBlock, KV.fname, KV.name]
+  have hrest : dispRows name width post = .ok [] := by
+    have := dispRows_skip name width post [] hpost
+    simpa [dispRows] using this
+  simp only [kBlock] at hn ⊢
+  simp only [dispRows, hn, if_true, blockKids, hk, hrest, List.append_nil]
+
+
+
+
+/-! ### indexed maps -/
+
+theorem mapIdx_length {α β} (f : Nat → α → β) (k : Nat) (l : List α) : (mapIdx f k l).length = l.length := by
+  induction l generalizing k with
+  | nil => rfl
+  | cons a r ih => simp [mapIdx, ih]
+
+theorem mapIdx_getElem? {α β} (f : Nat → α → β) (k : Nat) (l : List α) (j : Nat) :
+    (mapIdx f k l)[j]? = (l[j]?).map (f (k + j)) := by
+  induction l generalizing k j with
+  | nil => simp [mapIdx]
+  | cons a r ih =>
+    cases j with
+    | zero => simp [mapIdx]
+    | succ j =>
+      simp only [mapIdx, List.getElem?_cons_succ, ih]
+      have : k + 1 + j = k + (j + 1) := by omega
+      rw [this]
+
+theorem mapIdx_congr {α β} (f g : Nat → α → β) (k : Nat) (l : List α)
+    (h : ∀ j a, l[j]? = some a → f (k + j) a = g (k + j) a) : mapIdx f k l = mapIdx g k l := by
+  induction l generalizing k with
+  | nil => rfl
+  | cons a r ih =>
+    simp only [mapIdx]
+    have h0 := h 0 a (by simp)
+    simp only [Nat.add_zero] at h0
+    rw [h0, ih (k + 1) (fun j b hb => by
+      have := h (j + 1) b (by simpa using hb)
+      have e : k + (j + 1) = k + 1 + j := by omega
+      rw [e] at this; exact this)]
+
+theorem setAt_mapIdx {α β} (f h : Nat → α → β) (k : Nat) (l : List α) (j : Nat) (w : β)
+    (hw : ∀ a, l[j]? = some a → w = h (k + j) a) :
+    setAt (mapIdx f k l) j (fun _ => w) = mapIdx (fun i a => if i = k + j then h i a else f i a) k l := by
+  induction l generalizing k j with
+  | nil => simp [mapIdx, setAt]
+  | cons a r ih =>
+    cases j with
+    | zero =>
+      simp only [mapIdx, setAt, Nat.add_zero, if_true]
+      rw [hw a (by simp)]
+      simp only [Nat.add_zero]
+      congr 1
+      apply mapIdx_congr
+      intro j b _
+      have : k + 1 + j ≠ k := by omega
+      simp [this]
+    | succ j =>
+      simp only [mapIdx, setAt]
+      have hne : k ≠ k + (j + 1) := by omega
+      simp only [hne, if_false]
+      have e : k + (j + 1) = k + 1 + j := by omega
+      rw [ih (k + 1) j (fun b hb => by
+        have := hw b (by simpa using hb)
+        rw [e] at this; exact this)]
+      rw [e]
+
+theorem mapIdx_id {α} (k : Nat) (l : List α) : mapIdx (fun _ a => a) k l = l := by
+  induction l generalizing k with
+  | nil => rfl
+  | cons a r ih => simp [mapIdx, ih]
+
+theorem mapIdx_mapIdx {α β γ} (f : Nat → α → β) (g : Nat → β → γ) (k : Nat) (l : List α) :
+    mapIdx g k (mapIdx f k l) = mapIdx (fun i a => g i (f i a)) k l := by
+  induction l generalizing k with
+  | nil => rfl
+  | cons a r ih => simp [mapIdx, ih]
+
+theorem mapIdx_map {α β γ} (f : α → β) (g : Nat → β → γ) (k : Nat) (l : List α) :
+    mapIdx g k (l.map f) = mapIdx (fun i a => g i (f a)) k l := by
+  induction l generalizing k with
+  | nil => rfl
+  | cons a r ih => simp [mapIdx, ih]
+
+/-! ### row/column arithmetic -/
+
+theorem idx_div (size y x : Nat) (hx : x < size) : (y * size + x) / size = y := by
+  have hs : 0 < size := by omega
+  rw [Nat.mul_comm, Nat.mul_add_div hs, Nat.div_eq_of_lt hx]; simp
+
+theorem idx_mod (size y x : Nat) (hx : x < size) : (y * size + x) % size = x := by
+  rw [Nat.mul_comm, Nat.mul_add_mod, Nat.mod_eq_of_lt hx]
+
+theorem idx_eq_iff (size y x i : Nat) (hx : x < size) :
+    i = y * size + x ↔ (i / size = y ∧ i % size = x) := by
+  constructor
+  · rintro rfl; exact ⟨idx_div size y x hx, idx_mod size y x hx⟩
+  · rintro ⟨rfl, rfl⟩
+    have := Nat.div_add_mod i size
+    rw [Nat.mul_comm] at this; exact this.symm
+
+theorem idx_lt (size y x : Nat) (hy : y < size) (hx : x < size) : y * size + x < size * size := by
+  have : (y + 1) * size ≤ size * size := Nat.mul_le_mul_right size hy
+  have e : (y + 1) * size = y * size + size := by rw [Nat.add_mul]; simp
+  omega
+
+
+
+
+/-! ### one displacement array applied to the vertex list -/
+
+/-- vertex `i` has been written once rows `< y` and columns `< x` of row `y` are done
+(`cnt` vertices per row are written) -/
+def inDone (size cnt y x i : Nat) : Bool :=
+  decide (i % size < cnt) && (decide (i / size < y) || (decide (i / size = y) && decide (i % size < x)))
+
+def stP (size cnt : Nat) (setF : DVert → DVert → DVert) (src vs : List DVert) (y x : Nat) : List DVert :=
+  mapIdx (fun i v => if inDone size cnt y x i then setF v (src.getD i blankVert) else v) 0 vs
+
+theorem flatMap_slice (toks : DVert → List Str) (per : Nat) (hper : ∀ s, (toks s).length = per)
+    (l : List DVert) (x : Nat) (s : DVert) (hx : l[x]? = some s) :
+    ((l.flatMap toks).drop (per * x)).take per = toks s := by
+  induction l generalizing x with
+  | nil => simp at hx
+  | cons a r ih =>
+    cases x with
+    | zero =>
+      simp only [List.getElem?_cons_zero, Option.some.injEq] at hx
+      subst hx
+      simp only [Nat.mul_zero, List.drop_zero, List.flatMap_cons]
+      have h1 : per ≤ (toks a).length := by rw [hper]; exact Nat.le_refl _
+      have h2 : (toks a).length ≤ per := by rw [hper]; exact Nat.le_refl _
+      rw [List.take_append_of_le_length h1, List.take_of_length_le h2]
+    | succ x =>
+      simp only [List.getElem?_cons_succ] at hx
+      simp only [List.flatMap_cons]
+      have e : per * (x + 1) = (toks a).length + per * x := by rw [hper]; rw [Nat.mul_add]; omega
+      rw [e, List.drop_append]
+      have h0 : (toks a).drop ((toks a).length + per * x) = [] := by
+        apply List.drop_of_length_le; omega
+      have h1 : (toks a).length + per * x - (toks a).length = per * x := by omega
+      rw [h0, h1, List.nil_append]
+      exact ih x hx
+
+section
+variable (size per cnt : Nat) (upd : DVert → List Str → Except Err DVert) (setF : DVert → DVert → DVert)
+  (toks : DVert → List Str) (src vs : List DVert)
+
+theorem applyRowFrom_spec (hc : cnt ≤ size) (hlen : vs.length = size * size) (hsrc : src.length = size * size)
+    (hupd : ∀ v s, upd v (toks s) = .ok (setF v s))
+    (y : Nat) (hy : y < size) (rowToks : List Str)
+    (hrow : ∀ x s, x < cnt → src[y * size + x]? = some s → (rowToks.drop (per * x)).take per = toks s)
+    (n x0 : Nat) (hn : x0 + n = cnt) :
+    applyRowFrom size per upd y rowToks x0 n (stP size cnt setF src vs y x0) = .ok (stP size cnt setF src vs y cnt) := by
+  induction n generalizing x0 with
+  | zero =>
+    have : x0 = cnt := by omega
+    subst this
+    rfl
+  | succ n ih =>
+    have hx : x0 < cnt := by omega
+    have hxs : x0 < size := by omega
+    have hidx : y * size + x0 < size * size := idx_lt size y x0 hy hxs
+    obtain ⟨v, hv⟩ : ∃ v, vs[y * size + x0]? = some v := by
+      have : y * size + x0 < vs.length := by rw [hlen]; exact hidx
+      exact ⟨vs[y * size + x0], by simp [this]⟩
+    obtain ⟨s, hs⟩ : ∃ s, src[y * size + x0]? = some s := by
+      have : y * size + x0 < src.length := by rw [hsrc]; exact hidx
+      exact ⟨src[y * size + x0], by simp [this]⟩
+    have hnot : inDone size cnt y x0 (y * size + x0) = false := by
+      simp [inDone, idx_div size y x0 hxs, idx_mod size y x0 hxs]
+    have hget : (stP size cnt setF src vs y x0)[y * size + x0]? = some v := by
+      unfold stP
+      rw [mapIdx_getElem?, hv]
+      simp [hnot]
+    have hsd : src.getD (y * size + x0) blankVert = s := by
+      simp [List.getD, hs]
+    simp only [applyRowFrom, hget, hrow x0 s hx hs, hupd]
+    have hstep : setAt (stP size cnt setF src vs y x0) (y * size + x0) (fun _ => setF v s)
+        = stP size cnt setF src vs y (x0 + 1) := by
+      unfold stP
+      rw [setAt_mapIdx _ (fun i a => setF a (src.getD i blankVert)) 0 vs (y * size + x0) (setF v s) (by
+        intro a ha
+        rw [hv] at ha
+        simp only [Option.some.injEq] at ha
+        subst ha
+        rw [← hsd]; simp [List.getD])]
+      apply mapIdx_congr
+      intro j a _
+      simp only [Nat.zero_add]
+      by_cases hj : j = y * size + x0
+      · subst hj
+        simp [inDone, idx_div size y x0 hxs, idx_mod size y x0 hxs, hx]
+      · have hiff : ¬ (j / size = y ∧ j % size = x0) := fun h => hj ((idx_eq_iff size y x0 j hxs).mpr h)
+        simp only [hj, if_false]
+        have : inDone size cnt y (x0 + 1) j = inDone size cnt y x0 j := by
+          simp only [inDone]
+          by_cases h1 : j / size = y
+          · have h2 : j % size ≠ x0 := fun e => hiff ⟨h1, e⟩
+            have : (j % size < x0 + 1) = (j % size < x0) := by
+              apply propext; omega
+            simp [h1, this]
+          · simp [h1]
+        rw [this]
+    rw [hstep]
+    exact ih (x0 + 1) (by omega)
+
+theorem stP_row_end (y : Nat) : stP size cnt setF src vs y cnt = stP size cnt setF src vs (y + 1) 0 := by
+  unfold stP
+  apply mapIdx_congr
+  intro j a _
+  have : inDone size cnt y cnt (0 + j) = inDone size cnt (y + 1) 0 (0 + j) := by
+    simp only [inDone, Nat.zero_add, Nat.not_lt_zero, decide_false, Bool.and_false, Bool.or_false]
+    by_cases h1 : j % size < cnt <;> by_cases h2 : j / size < y <;> by_cases h3 : j / size = y <;>
+      simp [h1, h2, h3] <;> omega
+  rw [this]
+
+end
+
+
+
+
+/-- the token rows of one array as the writer produces them: `nrows` rows, the first `cnt`
+vertices of each -/
+def rowsetToks (size nrows cnt : Nat) (toks : DVert → List Str) (src : List DVert) : List (List Str) :=
+  (rowsOf size nrows src).map fun r => (r.take cnt).flatMap toks
+
+theorem rowsOf_drop (size n : Nat) (l : List DVert) :
+    rowsOf size (n + 1) l = l.take size :: rowsOf size n (l.drop size) := rfl
+
+section
+variable (size per cnt : Nat) (upd : DVert → List Str → Except Err DVert) (setF : DVert → DVert → DVert)
+  (toks : DVert → List Str) (src vs : List DVert)
+
+theorem row_slice (hc : cnt ≤ size) (y x : Nat) (hx : x < cnt) :
+    (((src.drop (y * size)).take size).take cnt)[x]? = src[y * size + x]? := by
+  rw [List.getElem?_take_of_lt hx, List.getElem?_take_of_lt (by omega), List.getElem?_drop]
+
+theorem applyRows_spec (hc : cnt ≤ size) (hlen : vs.length = size * size) (hsrc : src.length = size * size)
+    (hper : ∀ s, (toks s).length = per)
+    (hupd : ∀ v s, upd v (toks s) = .ok (setF v s))
+    (nr y0 : Nat) (hy : y0 + nr ≤ size) :
+    applyRows size per cnt upd (idxFrom y0 (rowsetToks size nr cnt toks (src.drop (y0 * size))))
+        (stP size cnt setF src vs y0 0)
+      = .ok (stP size cnt setF src vs (y0 + nr) 0) := by
+  induction nr generalizing y0 with
+  | zero => simp [rowsetToks, rowsOf, idxFrom, applyRows]
+  | succ nr ih =>
+    simp only [rowsetToks, rowsOf_drop, List.map_cons, idxFrom, applyRows]
+    have hrow : ∀ x s, x < cnt → src[y0 * size + x]? = some s →
+        (((((src.drop (y0 * size)).take size).take cnt).flatMap toks).drop (per * x)).take per = toks s := by
+      intro x s hx hs
+      apply flatMap_slice toks per hper
+      rw [row_slice size cnt src hc y0 x hx]; exact hs
+    rw [applyRowFrom_spec size per cnt upd setF toks src vs hc hlen hsrc hupd y0 (by omega) _ hrow cnt 0 (by omega)]
+    simp only []
+    rw [stP_row_end]
+    have hd : (src.drop (y0 * size)).drop size = src.drop ((y0 + 1) * size) := by
+      rw [List.drop_drop]; congr 1; rw [Nat.add_mul]; omega
+    rw [hd]
+    have := ih (y0 + 1) (by omega)
+    simp only [rowsetToks] at this
+    rw [this]
+    congr 2; omega
+
+theorem stP_zero : stP size cnt setF src vs 0 0 = vs := by
+  unfold stP
+  have : mapIdx (fun i v => if inDone size cnt 0 0 i = true then setF v (src.getD i blankVert) else v) 0 vs
+      = mapIdx (fun _ a => a) 0 vs := by
+    apply mapIdx_congr
+    intro j a _
+    simp [inDone]
+  rw [this, mapIdx_id]
+
+/-- the vertices an array writes: rows `< nrows`, columns `< cnt` -/
+def inRegion (size nrows cnt i : Nat) : Bool := decide (i / size < nrows) && decide (i % size < cnt)
+
+theorem stP_final (nrows : Nat) :
+    stP size cnt setF src vs nrows 0
+      = mapIdx (fun i v => if inRegion size nrows cnt i then setF v (src.getD i blankVert) else v) 0 vs := by
+  unfold stP
+  apply mapIdx_congr
+  intro j a _
+  have : inDone size cnt nrows 0 (0 + j) = inRegion size nrows cnt (0 + j) := by
+    simp only [inDone, inRegion, Nat.zero_add, Nat.not_lt_zero, decide_false, Bool.and_false, Bool.or_false]
+    exact Bool.and_comm _ _
+  rw [this]
+
+theorem rowsOf_lengths (size n : Nat) (l : List DVert) (h : n * size ≤ l.length) :
+    ∀ r ∈ rowsOf size n l, r.length = size := by
+  induction n generalizing l with
+  | zero => intro r hr; simp [rowsOf] at hr
+  | succ n ih =>
+    intro r hr
+    have e : (n + 1) * size = n * size + size := by rw [Nat.add_mul]; simp
+    simp only [rowsOf, List.mem_cons] at hr
+    rcases hr with rfl | hr
+    · simp only [List.length_take]; omega
+    · exact ih (l.drop size) (by simp only [List.length_drop]; omega) r hr
+
+theorem rowsOf_mem (size n : Nat) (l : List DVert) : ∀ r ∈ rowsOf size n l, ∀ s ∈ r, s ∈ l := by
+  induction n generalizing l with
+  | zero => intro r hr; simp [rowsOf] at hr
+  | succ n ih =>
+    intro r hr s hs
+    simp only [rowsOf, List.mem_cons] at hr
+    rcases hr with rfl | hr
+    · exact List.mem_of_mem_take hs
+    · exact List.mem_of_mem_drop (ih (l.drop size) r hr s hs)
+
+theorem flatMap_length_const (toks : DVert → List Str) (per : Nat) (hper : ∀ s, (toks s).length = per)
+    (l : List DVert) : (l.flatMap toks).length = per * l.length := by
+  induction l with
+  | nil => simp
+  | cons a r ih => simp [hper, ih, Nat.mul_add]; omega
+
+/-- **One array.** If the children contain exactly one block `name`, written by the exporter from
+`src` (`nrows` rows, `cnt` vertices each), applying it to `vs` sets exactly those vertices. -/
+theorem applyRowset_spec (name : String) (nrows : Nat) (pre post : List KV)
+    (hc : cnt ≤ size) (hn : nrows ≤ size) (hlen : vs.length = size * size) (hsrc : src.length = size * size)
+    (hper : ∀ s, (toks s).length = per)
+    (htok : ∀ s ∈ src, TokList (toks s))
+    (hupd : ∀ v s, upd v (toks s) = .ok (setF v s))
+    (hpre : ∀ k ∈ pre, named name k = false) (hpost : ∀ k ∈ post, named name k = false) :
+    applyRowset name size per cnt upd
+        (pre ++ kBlock name (rowLeaves (rowsetToks size nrows cnt toks src)) :: post) vs
+      = .ok (mapIdx (fun i v => if inRegion size nrows cnt i then setF v (src.getD i blankVert) else v) 0 vs) := by
+  have hrows : rowsOfBlock (per * cnt) (rowLeaves (rowsetToks size nrows cnt toks src))
+      = .ok (idxFrom 0 (rowsetToks size nrows cnt toks src)) := by
+    apply rowsOfBlock_leaves
+    intro r hr
+    simp only [rowsetToks, List.mem_map] at hr
+    obtain ⟨row, hrow, rfl⟩ := hr
+    have hl := rowsOf_lengths size nrows src (by
+      rw [hsrc]; exact Nat.mul_le_mul_right size hn) row hrow
+    refine ⟨?_, ?_⟩
+    · rw [flatMap_length_const toks per hper, List.length_take, hl, Nat.min_eq_left hc]
+    · intro t ht
+      simp only [List.mem_flatMap] at ht
+      obtain ⟨s, hs, hts⟩ := ht
+      exact htok s (rowsOf_mem size nrows src row hrow s (List.mem_of_mem_take hs)) t hts
+  unfold applyRowset
+  rw [dispRows_hit name (per * cnt) pre post _ _ hpre hpost hrows]
+  simp only []
+  have := applyRows_spec size per cnt upd setF toks src vs hc hlen hsrc hper hupd nrows 0 (by omega)
+  simp only [Nat.zero_mul, List.drop_zero, Nat.zero_add, stP_zero] at this
+  rw [this, stP_final]
+
+end
+
+
 end C06
